@@ -489,7 +489,25 @@ def run_scenario(sc):
 def main():
     req = json.load(sys.stdin)
     install_wrappers()
-    results = [run_scenario(sc) for sc in req["scenarios"]]
+    # per-scenario wall-clock watchdog: a client that busy-loops at frozen virtual time (e.g. an application retrying
+    # a call that fails at once, for ever) must not take the other scenarios of the shard with it
+    import signal
+
+    class WallTimeout(Exception):
+        pass
+
+    def on_alarm(signum, frame):
+        raise WallTimeout("scenario still running after %d s of wall time" % req.get("wall_limit", 150))
+    signal.signal(signal.SIGALRM, on_alarm)
+    results = []
+    for sc in req["scenarios"]:
+        signal.alarm(int(req.get("wall_limit", 150)))
+        try:
+            results.append(run_scenario(sc))
+        except WallTimeout as e:
+            results.append({"id": sc["id"], "ok": False, "error": "WallTimeout: " + str(e)})
+        finally:
+            signal.alarm(0)
     print(json.dumps({"results": results}, default=lambda o: o.decode("latin1") if isinstance(o, bytes) else str(o)))
 
 
